@@ -194,6 +194,25 @@ def run(ctx):
                 worst[k] = max(worst.get(k, -20000), v)
         traces.append([ev])
     scan(ctx, rng, quick)
+    # the agreement of the two routes is per point: it cannot depend on how many points one call asks for
+    import holopy as hp
+    for shape in ((17, 17), (20, 13)) if quick else ((17, 17), (20, 13), (16, 16), (23, 29), (1, 300)):
+        ctx.case(("many_points", shape), nontrivial=True)
+        try:
+            det = hp.detector_grid(shape, 0.11)
+            sc = Sphere(n=1.2 * NMED, r=5.0 / K, center=(0.9, 0.7, 60.0 / K))
+            kw = dict(medium_index=NMED, illum_wavelen=WL, illum_polarization=(math.cos(0.4), math.sin(0.4)))
+            a = calc_field(det, sc, theory=MieLens(lens_angle=0.6, calculator_accuracy_kwargs={"interpolate_integrals": False}), **kw).values
+            b = calc_field(det, sc, theory=Lens(0.6, Mie(False, False), 60, 60), **kw).values
+            d = rel(a, b, float(np.max(np.abs(a))))
+        except Exception as e:
+            ctx.violation("many_points/exception", {"shape": shape, "exc": repr(e)[:200]})
+            continue
+        ctx.notes.setdefault("many_points_defect", {})[str(shape)] = d
+        if d > 1e-6:
+            ctx.violation("many_points/numeric_equals_analytic", {"shape": shape, "points": shape[0] * shape[1], "defect": d})
+        else:
+            ctx.trace_ok()
     verdicts = tracemod.validate(ctx, "LensRoutesTrace", traces)
     for tr, (acc, line, clauses) in zip(traces, verdicts):
         if acc:
